@@ -138,6 +138,8 @@ def _map_sources(v):
 
 
 def run(ctx):
+    from ..persist import rule_P16
+    rule_P16(ctx)      # the resume block does not overwrite what the caller configured
     rule_F6(ctx)
     rule_N1(ctx)
     from ..initrules import rule_I1
